@@ -36,6 +36,7 @@ DECIDED = [
     "C17.4 ON/OFF regex languages vs the qemu-img line model: disjoint; '0 B' lines are OFF only; non-zero sizes are ON only",
     "C17.6 the per-image operations behind a vm-level ramfile state are local ones (KNOWN FINDING F24: the pool-routing public operations are used)",
     "C17.5 qcow2ext listing: a state per '*.qcow2' entry; backend class constants select the ON/OFF pattern",
+    "C17.7w the vm-level parameters name all images (the object iteration does not write its input); C17.2z companion snapshots of size 0 must not veto a vm state (known finding F41)",
 ]
 NOT_DECIDED = ["qemu-img output outside the stated line model", "captured group text under backtracking", "matches spanning several lines"]
 ASSUMPTIONS = ["line model of `qemu-img snapshot -l`: ID, spaces, TAG [\\w.-]+, spaces, VM SIZE ('0 B' or %0.3g value + unit), spaces, DATE yyyy-mm-dd, rest"]
